@@ -1,9 +1,17 @@
+"""C02: length and integer indexing agree with iteration (E1), plus complete size sweeps of the stages whose index
+arithmetic depends on size relations (intersperse of 2-3 parts, batch, slices, concatenate)."""
+from vf import sizesweep
 from vf.checks import _e1
 
 
 def run(tier):
-    return _e1.run('C02', {'index'}, tier)
+    res = _e1.run('C02', {'index'}, tier)
+    sw = sizesweep.run('C02', tier, res)
+    res.coverage['traces_validated_against_impl'] += sw['states']
+    return res
 
 
 def replay(data):
+    if data['replay'].get('engine') == 'sizesweep':
+        return sizesweep.replay('C02', data['replay'])
     return _e1.replay('C02', {'index'}, data)
